@@ -323,6 +323,7 @@ func TestC16(t *testing.T) {
 		"case = (implementation automaton, message-kind sequence [, engine role]); automata: every exported StateMap variant of the 12 specified protocols + 3 Leios prototypes, DMQ/leios-votes automata learned from the real Client/Server objects; "+
 			"(a) all sequences up to length N over the protocol's alphabet (blocking/non-blocking and acquire-target variants are separate symbols) whose proper prefixes both automata accept, plus rapid-drawn guided walks up to length 60, compared step by step (acceptance, successor pairing, agency, termination) with the hand-encoded specification automaton; "+
 			"(b) sequences driven in lock step through a real protocol.Protocol (client and server role; local sends via SendMessage, receives as raw mux segments) and compared with the simulation and the specification; (c) every permitted (state, message type) decoded from constructor-built samples; "+
+			"(d) history independence and special values: Copy() compared field by field with the package-level map, copies mutated (entries replaced, transitions appended, states dropped/added), client+server instances with non-default timeouts created, then the package-level maps re-read (again after all engines/instances of the run incl. refused, stopped and restarted ones); restart-capable real servers driven to Done and the new instance's initial state/agency probed; a refusal must shut the protocol down (a following legal message is not accepted); messages whose tag is 255, 256+t, 65536+t, 2^32+t or negative must not be accepted in the probed states; sample variants carry end-of-range field values (version 0/32767/32768/65535, counts 0/65535, slot 2^64-1); "+
 			"non-trivial = sequence of length >= 2 whose last message at least one automaton accepts (verdict depends on the state reached), or a codec sample; distinct by (automaton, sequence[, role])")
 	defer rec.Finish()
 	rec.Assume(
